@@ -152,6 +152,11 @@ package aml
 
 // NameString: root/parent prefixes, then NullName | NameSeg | DualNamePath | MultiNamePath. The
 // returned slice starts at the first prefix byte, ends at the last segment byte, lies in the table
+// a NameString consumed from `from` to `to` ends in the NullName terminator when the byte after
+// its root/parent prefixes is 0x00 (then nothing follows it); the name returned is the consumed
+// bytes without that terminator - prefixes included, so that `\` alone still names the root
+//@ pred prefixByte(b uint8) = b == 0x5c || b == 0x5e
+//@ pred nameEndsInNull(p *Parser, from uint32, to uint32) = to > from && byteAt(p, to - 1) == 0 && forall(k, uint32, k >= from && k < to - 1 ==> prefixByte(byteAt(p, k)))
 //@ func (p *Parser) parseNameString() (s []byte, res parseResult)
 //@   property C11 C12
 //@   requires p != nil && wfR(rd(p)) && len(p.r.data) <= 0x7fffffff
@@ -159,8 +164,10 @@ package aml
 //@   ensures wfR(rd(p)) && sameStream(rd(p)) && p.r.pkgEnd == old(p.r.pkgEnd)
 //@   ensures contained: inTable(rd(p), s)
 //@   ensures failed: res != parseResultOk ==> len(s) == 0
-//@   ensures okname: res == parseResultOk ==> p.r.offset <= p.r.pkgEnd && p.r.offset > old(p.r.offset) && (len(s) > 0 ==> dataptr(s) == dataptr(p.r.data) + uintptr(old(p.r.offset)) && uint64(old(p.r.offset)) + uint64(len(s)) == uint64(p.r.offset))
+//@   ensures okname: res == parseResultOk ==> p.r.offset <= p.r.pkgEnd && p.r.offset > old(p.r.offset) && (len(s) > 0 ==> dataptr(s) == dataptr(p.r.data) + uintptr(old(p.r.offset)))
+//@   ensures span: res == parseResultOk ==> uint64(old(p.r.offset)) + uint64(len(s)) + ite(nameEndsInNull(p, old(p.r.offset), p.r.offset), 1, 0) == uint64(p.r.offset)
 //@   loop 1 (for) invariant wfR(rd(p)) && sameStream(rd(p)) && p.r.pkgEnd == old(p.r.pkgEnd) && p.r.offset >= old(p.r.offset) && startOffset == old(p.r.offset) && res == parseResultOk && str.Len == 0 && str.Data == ite(old(p.r.offset) >= p.r.pkgEnd, 0, dataptr(p.r.data) + uintptr(old(p.r.offset))) && (p.r.offset > old(p.r.offset) ==> p.r.offset <= p.r.pkgEnd)
+//@   loop 1 invariant prefixes: forall(k, uint32, k >= old(p.r.offset) && k < p.r.offset ==> prefixByte(byteAt(p, k)))
 
 // a byte list of dataLen bytes starting at the read position becomes the object's value; the
 // caller must not ask for more bytes than the current window holds
